@@ -15,11 +15,12 @@ hold = {}
 hp = os.path.join(V, "conf", "hold.json")
 if os.path.exists(hp):
     hold = json.load(open(hp))
+claimed_ok = set(json.load(open(os.path.join(V, "conf", "claimed.json"))))
 checks, na = [], []
 for pr in props:
     pid = pr["id"]
     c = confs.get(pid)
-    if not c or c.get("disabled") or pid in hold:
+    if not c or c.get("disabled") or pid in hold or pid not in claimed_ok:
         na.append({"property_id": pid, "reason": hold.get(pid) or na_reasons.get(pid, "check not built yet in this session; not claimed")})
         continue
     checks.append({
